@@ -23,3 +23,5 @@ for d in seeded/*/; do
   git -C /repo checkout -q -- . ; git -C /repo clean -fdq
 done
 echo FINISHED
+# evidence/*.json now describes seeded trees: put the committed records back (or run tools/regen_all.sh)
+git -C /verif checkout -q -- evidence
